@@ -38,8 +38,8 @@ impl KeyPool {
 		let slot = format!("{}/{}", alg, via);
 		let per = if alg.starts_with("rsa") { 2 } else { self.per_slot };
 		let v = self.keys.entry(slot.clone()).or_default();
-		if via == "by-oid" {
-			return v.first().ok_or_else(|| "no key prepared for this OID".to_string());
+		if via == "by-oid" || via.starts_with("shaped") {
+			return v.first().ok_or_else(|| "no key prepared for this slot".to_string());
 		}
 		if v.len() < per {
 			let h = format!("k-{}-{}", slot, v.len());
@@ -361,6 +361,7 @@ pub fn run_random(out_path: &str, n: usize) {
 		}
 	}
 	by_oid(seed, &mut pool, &mut out);
+	shaped_keys(seed, &mut pool, &mut out);
 	out.finish();
 }
 
@@ -409,6 +410,50 @@ fn by_oid(seed: u64, pool: &mut KeyPool, out: &mut Out) {
 		}
 	}
 }
+/// Subject keys whose public key octets begin / end with 0x00, begin with 0xff, 0x30 or 0x04 (about one Ed25519 key in 256 each),
+/// handed over as key pair, as parsed SubjectPublicKeyInfo and through a request: key bits are not a number, not a C string and
+/// carry no prefix of their own.
+#[cfg(feature = "crypto")]
+fn shaped_keys(seed: u64, pool: &mut KeyPool, out: &mut Out) {
+	let mut rng = Rng::new(seed ^ 0x5a9ed);
+	for (w, want) in ["lead0", "trail0", "leadff", "lead30"].iter().enumerate() {
+		let via = format!("shaped-{}", want);
+		for _ in 0..20000 {
+			let info = new_key(&format!("k-ed25519-{}", via), "ed25519", &mut rng);
+			let hit = match *want {
+				"lead0" => info.raw_pub[0] == 0,
+				"trail0" => info.raw_pub[31] == 0,
+				"leadff" => info.raw_pub[0] == 0xff,
+				_ => info.raw_pub[0] == 0x30 || info.raw_pub[0] == 0x04,
+			};
+			if !hit {
+				continue;
+			}
+			if let Ok(mut k) = live_from_info(info, "pkcs8-explicit") {
+				k.via = via.clone();
+				pool.keys.insert(format!("ed25519/{}", via), vec![k]);
+			}
+			break;
+		}
+		if !pool.keys.contains_key(&format!("ed25519/{}", via)) {
+			continue;
+		}
+		for (j, src) in ["keypair", "spki", "csr", "csr-path"].iter().enumerate() {
+			for (k, ca) in ["NoCa", "Ca"].iter().enumerate() {
+				let mut p = base_params_desc();
+				p["serial"] = json!({"k": "given", "b": [8, w as u8, j as u8, k as u8]});
+				p["dn"] = json!([{"ty": "2.5.4.3", "kind": "utf8", "val": crate::der::hex(format!("shaped {}", want).as_bytes())}]);
+				p["isCa"] = json!({"k": ca, "pl": {"k": "none", "n": 0}});
+				let c = json!({"grp": "shaped-key", "_id": format!("shaped-key/{}/{}/{}/{}", seed, want, src, ca), "params": p, "self": false, "subjAlg": "ed25519", "signAlg": "ed25519",
+					"subjVia": via, "issuerKid": {"k": "sha256", "b": []}, "issuerDn": [], "pubSrc": src, "hash2": []});
+				run_case(&c, w * 8 + j * 2 + k, seed, pool, out);
+			}
+		}
+	}
+}
+#[cfg(not(feature = "crypto"))]
+fn shaped_keys(_seed: u64, _pool: &mut KeyPool, _out: &mut Out) {}
+
 #[cfg(not(feature = "crypto"))]
 fn by_oid(_seed: u64, _pool: &mut KeyPool, _out: &mut Out) {}
 
